@@ -7,6 +7,7 @@ import (
 	"crypto/rsa"
 	"crypto/sha256"
 	stdx509 "crypto/x509"
+	"crypto/x509/pkix"
 	"fmt"
 	"path/filepath"
 	"regexp"
@@ -377,8 +378,30 @@ func subC09(out string, seed uint64, tier string, arg string) {
 			}
 		}
 	}
-	for idx := 0; idx < len(certs) && n < limit; idx++ {
-		o := certs[(idx*17+int(seed))%len(certs)]
+	// certificates signed by their *own* key but issued under another name, subjectKeyId = authorityKeyId: the
+	// signature verifies under the certificate's key although it is not self-issued — whatever consults a
+	// signature check instead of the parser's SelfSigned sees the difference when the bits are replaced
+	kitInit()
+	var front []*Obj
+	for i := 0; i < 4; i++ {
+		der, err := BuildCert(CertSpec{IsCA: i%2 == 0, Subject: pkixName(fmt.Sprintf("kit-selfkeyed-%d.example.com", i)), DNS: []string{"sk.example.com"},
+			Issuer: pkix.Name{CommonName: "Some Other Issuer", Organization: []string{"Elsewhere"}}, SelfSignKey: kitCAKey, SelfKeyed: true,
+			EKUs: []stdx509.ExtKeyUsage{stdx509.ExtKeyUsageServerAuth}, KeyUsage: stdx509.KeyUsageDigitalSignature | stdx509.KeyUsageCertSign})
+		if err == nil {
+			if o := parseObj("cert", fmt.Sprintf("kit-selfkeyed-%d", i), der); o != nil {
+				front = append(front, o)
+			}
+		} else {
+			rep.count("kit-build-error:selfkeyed")
+		}
+	}
+	order := make([]*Obj, 0, len(certs)+len(front))
+	order = append(order, front...)
+	for idx := 0; idx < len(certs); idx++ {
+		order = append(order, certs[(idx*17+int(seed))%len(certs)])
+	}
+	for idx := 0; idx < len(order) && n < limit; idx++ {
+		o := order[idx]
 		cd, err := ParseCertDER(o.DER)
 		if err != nil {
 			continue
